@@ -30,6 +30,17 @@ def check(ctx):
             acc += ln.count('"c":"accept"')
         if '"c":"reject"' in ln or '"c":"reject_pending"' in ln:
             rej += 1
+    # unbounded histories: ConnCaps!IndInv (caps, exact limit sets, PeerState agrees with the connection phases) is
+    # proved inductive by Apalache for a reusable pool of connection ids; ConnMgrMC refines ConnCaps (checked by TLC
+    # above on every transition), and the real manager follows ConnMgrMC step by step (impl_divergences)
+    ind = [apalache_inductive(ctx, "ConnCaps.tla", "ConstInit2x4", timeout=600)]
+    if not ctx.quick():
+        ind.append(apalache_inductive(ctx, "ConnCaps.tla", "ConstInit3x5", timeout=1800))
+        ind.append(apalache_inductive(ctx, "ConnCaps.tla", "ConstInit4x6", timeout=3600))
+    for r in ind:
+        log("APALACHE inductive invariant %s: %s" % (r.get("cinit"), r))
+    cov["inductive_invariant"] = ind
+    cov["refinement"] = "ConnMgrMC => ConnCaps (CapsRefinement as TLC action property, CapsInd as invariant) in every model run"
     cov["accept_calls"] = acc
     cov["steps_with_rejection"] = rej
     return conclude(ctx, "model_checking", cov, violations, ASSUME)
